@@ -330,6 +330,10 @@ def engine_a_check(pid, tier, jobs, required_reach, assumptions, level_note, out
                 out.engine_errors.append("%s: the package initialisation cannot be executed by the engine, nothing was explored: %s" % (h, ((r.get("inconclusive_examples") or {}).get(k) or "")[:300]))
                 continue
             out.inconclusive.append("%s: %s (x%d)" % (h, k, n))
+        if required_reach.get(h) and not any(lab in (r.get("reach") or {}) for lab in required_reach[h]):
+            # not one of the harness's reach labels was hit: nothing of the property was decided by this job
+            # (the code under test cannot be executed by the engine, or every path was cut) - never reported as success
+            out.engine_errors.append("%s: no path reached any of the labels %s - nothing was decided (%s)" % (h, required_reach[h], "; ".join("%s x%d" % kv for kv in (r.get("inconclusive") or {}).items())[:300]))
         for lab in required_reach.get(h, []):
             if lab not in (r.get("reach") or {}):
                 if not r["exhaustive"]:
@@ -735,9 +739,11 @@ def c13(tier):
             T("graph", "VerifC13_PlainGraphFrozen", dict(FAMS["H"][0]), init_allow=["gonum.org/v1/gonum/graph/encoding/dot"]),
             T("graph", "VerifC13_GraphHistory"), fam(6, "K", **FIRST), fam(6, "J", **FIRST), fam(6, "H", **FIRST),
             T("transformer", "VerifC07_Merge", {"SCEN": 0, "F": 2, "DECLS": 2, "RELS": 1, "CONDS": 1, "FAULTS": 1, "N": 1, "NR": 1}),
-            T("transformer", "VerifC07_Merge", {"SCEN": 2, "N": 1, "NR": 1})]
+            T("transformer", "VerifC07_Merge", {"SCEN": 2, "N": 1, "NR": 1, "REVNAMES": 1}),
+            # the string entry points (and the listener behind them) on frozen input; the JSON string API
+            LJS("VerifC01_JSONAPI", tier, NODES=2, DEPTH=1, **SHAPES)]
     out = engine_a_check("C13", tier, jobs, {"VerifC13_PrinterFrozen": ["printed"], "VerifC02_Shapes": ["accepted"], "VerifC08_PrinterDegenerate": ["accepted"],
-                                             "VerifC13_GraphHistory": ["built"], "VerifGraph_Family": ["return"], "VerifC07_Merge": ["accepted"], "VerifC13_PlainGraphFrozen": ["queried"]},
+                                             "VerifC13_GraphHistory": ["built"], "VerifGraph_Family": ["return"], "VerifC07_Merge": ["accepted"], "VerifC13_PlainGraphFrozen": ["queried"], "VerifC01_JSONAPI": ["rendered"]},
                          ["data races, goroutines and the parser's prediction-cache history are outside (not applicable to this technique)",
                           "decided: no store into anything reachable from the argument (frozen-object monitor) and no store into a package-level variable of the repository"], "",
                          bounds={"printer": "modular models with symbolic names (so that the sort really swaps), all C02 shapes <= 4 nodes, degenerate protos"})
